@@ -97,10 +97,10 @@ Qed.
 Fixpoint bp_go (curr : list str) (p : pos) (ks : list akey) : option (list str) :=
   match ks with
   | [] => None
-  | AKey None _ :: ks' => bp_go curr p ks'
-  | AKey (Some _) None :: ks' => bp_go curr p ks'
-  | AKey (Some n) (Some sub) :: ks' =>
-      if negb (follows curr n) then bp_go curr p ks'
+  | AKey None _ _ :: ks' => bp_go curr p ks'
+  | AKey (Some _) _ None :: ks' => bp_go curr p ks'
+  | AKey (Some n) u (Some sub) :: ks' =>
+      if negb (follows curr n u) then bp_go curr p ks'
       else if in_range p (rng_of sub) then
         let np := curr ++ [n] in
         match board_path sub np p with
@@ -115,14 +115,14 @@ Lemma board_path_unfold r keys curr p :
 Proof.
   simpl. destruct (negb (in_range p r)); auto.
   induction keys as [|k ks IH]; auto.
-  destruct k as [[n|] [sub|]]; simpl; auto; rewrite IH; reflexivity.
+  destruct k as [[n|] u [sub|]]; simpl; auto; rewrite IH; reflexivity.
 Qed.
 
 Fixpoint bl_go (curr : list str) (ks : list akey) : list (list str * range) :=
   match ks with
   | [] => []
-  | AKey (Some n) (Some sub) :: ks' =>
-      if follows curr n
+  | AKey (Some n) u (Some sub) :: ks' =>
+      if follows curr n u
       then (curr ++ [n], rng_of sub) :: blocks sub (curr ++ [n]) ++ bl_go curr ks'
       else bl_go curr ks'
   | _ :: ks' => bl_go curr ks'
@@ -131,13 +131,13 @@ Fixpoint bl_go (curr : list str) (ks : list akey) : list (list str * range) :=
 Lemma blocks_unfold r keys curr : blocks (AMap r keys) curr = bl_go curr keys.
 Proof.
   simpl. induction keys as [|k ks IH]; auto.
-  destruct k as [[n|] [sub|]]; simpl; auto; rewrite IH; reflexivity.
+  destruct k as [[n|] u [sub|]]; simpl; auto; rewrite IH; reflexivity.
 Qed.
 
 Fixpoint wf_go (r : range) (ks : list akey) : bool :=
   match ks with
   | [] => true
-  | AKey _ (Some sub) :: ks' =>
+  | AKey _ _ (Some sub) :: ks' =>
       lex_le (r_start r) (r_start (rng_of sub)) && lex_le (r_end (rng_of sub)) (r_end r)
       && wf sub && wf_go r ks'
   | _ :: ks' => wf_go r ks'
@@ -147,7 +147,7 @@ Lemma wf_unfold r keys :
   wf (AMap r keys) = ordered_disjoint (map rng_of (sub_maps keys)) && wf_go r keys.
 Proof.
   simpl. f_equal. induction keys as [|k ks IH]; auto.
-  destruct k as [n [sub|]]; simpl; auto; rewrite IH; reflexivity.
+  destruct k as [n u [sub|]]; simpl; auto; rewrite IH; reflexivity.
 Qed.
 
 (* ---------------------------------------------------------------- induction principle *)
@@ -163,8 +163,8 @@ Section AmapInd.
           ((fix go (ks : list akey) : forall s, In s (sub_maps ks) -> P s :=
               match ks with
               | [] => fun s (F : In s []) => match F with end
-              | AKey n None :: ks' => fun s H => go ks' s H
-              | AKey n (Some sub) :: ks' =>
+              | AKey n _ None :: ks' => fun s H => go ks' s H
+              | AKey n _ (Some sub) :: ks' =>
                   fun s (H : In s (sub :: sub_maps ks')) =>
                     match H with
                     | or_introl e => eq_ind sub P (amap_ind' sub) s e
@@ -186,11 +186,11 @@ Proof.
   assert (IH' : forall s, In s (sub_maps ks) ->
           forall curr, wf s = true -> forall q rq, In (q, rq) (blocks s curr) ->
           in_range p rq = true -> in_range p (rng_of s) = true).
-  { intros s Hs. apply IH. destruct k as [n [sub|]]; simpl; auto. }
-  destruct k as [[n|] [sub|]]; simpl in Hin, Hwf.
+  { intros s Hs. apply IH. destruct k as [n u [sub|]]; simpl; auto. }
+  destruct k as [[n|] u [sub|]]; simpl in Hin, Hwf.
   - apply andb_prop in Hwf as [Hwf Hgo]. apply andb_prop in Hwf as [Hwf Hws].
     apply andb_prop in Hwf as [Hs He].
-    destruct (follows curr n).
+    destruct (follows curr n u).
     + destruct Hin as [E | Hin].
       * inversion E; subst. eapply in_range_nest; eauto.
       * apply in_app_or in Hin as [Hin | Hin].
@@ -209,9 +209,9 @@ Lemma bl_go_in_sub p : p_byte p = -1 ->
   exists s, In s (sub_maps ks) /\ in_range p (rng_of s) = true.
 Proof.
   intros Hp r curr ks. induction ks as [|k ks IH]; simpl; intros Hwf q rq Hin Hr; try easy.
-  destruct k as [[n|] [sub|]]; simpl in *.
+  destruct k as [[n|] u [sub|]]; simpl in *.
   - apply andb_prop in Hwf as [Hwf Hgo]. apply andb_prop in Hwf as [Hwf Hws].
-    destruct (follows curr n).
+    destruct (follows curr n u).
     + destruct Hin as [E | Hin].
       * inversion E; subst. exists sub; auto.
       * apply in_app_or in Hin as [Hin | Hin].
@@ -251,9 +251,9 @@ Proof.
   induction keys as [|k ks IHk]; simpl in Hin; try easy.
   assert (IH' : forall s, In s (sub_maps ks) ->
           forall curr q rq, In (q, rq) (blocks s curr) -> exists suf, q = curr ++ suf /\ suf <> []).
-  { intros s Hs. apply IH. destruct k as [n [sub|]]; simpl; auto. }
-  destruct k as [[n|] [sub|]]; simpl in Hin; auto.
-  destruct (follows curr n); auto.
+  { intros s Hs. apply IH. destruct k as [n u [sub|]]; simpl; auto. }
+  destruct k as [[n|] u [sub|]]; simpl in Hin; auto.
+  destruct (follows curr n u); auto.
   destruct Hin as [E | Hin].
   - inversion E; subst. exists [n]; split; auto. discriminate.
   - apply in_app_or in Hin as [Hin | Hin]; auto.
@@ -277,14 +277,14 @@ Proof.
   clear Hr Hwf0.
   induction keys as [|k ks IHk]; simpl in *.
   - intros q rq [].
-  - destruct k as [[n|] [sub|]]; simpl in *.
+  - destruct k as [[n|] u [sub|]]; simpl in *.
     + (* key with name and map *)
       apply andb_prop in Hdis as [Hd1 Hdis].
       apply andb_prop in Hgo as [Hgo1 Hgo]. apply andb_prop in Hgo1 as [Hgo1 Hws].
       apply andb_prop in Hgo1 as [Hs He].
       assert (IHks : good p (bl_go curr ks) curr (bp_go curr p ks)).
       { apply IHk; auto. }
-      destruct (follows curr n) eqn:Hf; simpl; auto.
+      destruct (follows curr n u) eqn:Hf; simpl; auto.
       assert (Hlater : forall q rq, In (q, rq) (bl_go curr ks) -> in_range p (rng_of sub) = true ->
                                     in_range p rq = false).
       { intros q rq Hin Hsub. destruct (in_range p rq) eqn:E; auto.
